@@ -59,7 +59,9 @@ type obs struct {
 	// live scenario
 	CyclesDone int  `json:"cycles_done,omitempty"`
 	Stuck      bool `json:"stuck,omitempty"`
-	Revived    bool `json:"revived_by_second_continue,omitempty"`
+	// twopause scenario: handlers-running counter sampled by each pauser right after its Pause returned
+	Samples []int64 `json:"samples,omitempty"`
+	Revived bool    `json:"revived_by_second_continue,omitempty"`
 }
 
 // ---- liveness stress (run in a subprocess: a stuck engine is an observation) ----
@@ -149,9 +151,26 @@ func child() {
 	if err != nil || json.Unmarshal(b, &in) != nil {
 		os.Exit(3)
 	}
-	o := live(in)
+	var o obs
+	if in.Scn == "live" {
+		o = live(in)
+	} else {
+		partialOut = os.Args[3]
+		o = execute(in)
+	}
 	ob, _ := json.Marshal(o)
 	os.WriteFile(os.Args[3], ob, 0o644)
+}
+
+// partialOut: in a child, where execute() saves what it has observed so far before a step that a
+// broken engine may not survive
+var partialOut string
+
+func savePartial(o obs) {
+	if partialOut != "" {
+		ob, _ := json.Marshal(o)
+		os.WriteFile(partialOut, ob, 0o644)
+	}
 }
 
 func liveChild(raw json.RawMessage) obs {
@@ -206,6 +225,7 @@ func (e event) HandlerID() string           { return "h" }
 func (e event) IsSecondary() bool           { return e.sec }
 
 type handler struct {
+	running atomic.Int64 // handlers currently executing
 	eng     timing.Engine
 	prog    map[uint64][]Ev
 	log     *logger
@@ -232,6 +252,7 @@ func busy(n int) {
 
 func (h *handler) Handle(e timing.Event) error {
 	ev := e.(event)
+	h.running.Add(1)
 	h.log.add("S", ev.id)
 	if h.gated && ev.id == h.gateID {
 		close(h.entered)
@@ -247,6 +268,7 @@ func (h *handler) Handle(e timing.Event) error {
 		h.eng.Schedule(event{c.ID, timing.VTimeInPicoSec(c.Time), c.Sec})
 	}
 	h.log.add("E", ev.id)
+	h.running.Add(-1)
 	return nil
 }
 
@@ -290,13 +312,28 @@ func parallelRunBlockedOnLock() bool {
 	})
 }
 
+// pausersBlocked counts the goroutines parked in ParallelEngine.Pause's pauseLock.Lock().
+func pausersBlocked() int {
+	n := 0
+	for _, g := range stacks() {
+		nl := strings.IndexByte(g, '\n')
+		if nl < 0 {
+			continue
+		}
+		if strings.Contains(g[:nl], "sync.Mutex.Lock") && strings.Contains(g[nl:], "(*ParallelEngine).Pause") {
+			n++
+		}
+	}
+	return n
+}
+
 func pauseBlocked() bool {
 	return anyGoroutine(func(h, b string) bool {
 		return strings.Contains(h, "sync.Mutex.Lock") && strings.Contains(b, "(*ParallelEngine).Pause")
 	})
 }
 
-const safety = 4 * time.Second
+const safety = 20 * time.Second // failure paths only
 
 // waitUntil polls cond (yielding) until it holds, ch is closed, or the safety timeout expires.
 func waitUntil(ch <-chan struct{}, cond func() bool) (closed bool, ok bool) {
@@ -344,7 +381,7 @@ func execute(in input) obs {
 		fmt.Sscan(k, &id)
 		h.prog[id] = v
 	}
-	if in.Scn == "inflight" {
+	if in.Scn == "inflight" || in.Scn == "twopause" {
 		h.gated, h.gateID = true, in.K
 	}
 	eng.(timing.HandlerRegistrar).RegisterHandler("h", h)
@@ -395,6 +432,80 @@ func execute(in input) obs {
 		}
 		lg.add("C", 0)
 		eng.Continue()
+	case "twopause":
+		// handler K is held mid-flight; TWO goroutines call Pause; each samples the handlers-running
+		// counter right after its Pause returns, waits for its turn, then calls Continue
+		runIt()
+		if !waitClosed(h.entered) {
+			o.Note = "gated handler never entered"
+			close(h.gate)
+			break
+		}
+		var prets, contGo, contDone [2]chan struct{}
+		var samples [2]atomic.Int64
+		for p := 0; p < 2; p++ {
+			prets[p], contGo[p], contDone[p] = make(chan struct{}), make(chan struct{}), make(chan struct{})
+			go func(p int) {
+				eng.Pause()
+				samples[p].Store(h.running.Load())
+				lg.add("P", 0)
+				close(prets[p])
+				<-contGo[p]
+				lg.add("C", 0)
+				eng.Continue()
+				close(contDone[p])
+			}(p)
+		}
+		returned := func(p int) bool {
+			select {
+			case <-prets[p]:
+				return true
+			default:
+				return false
+			}
+		}
+		// decisive, no sleep: both pausers parked on the pause lock, or one of the Pause calls has returned
+		if _, ok := waitUntil(nil, func() bool { return returned(0) || returned(1) || pausersBlocked() == 2 }); !ok {
+			o.Note = "pausers neither returned nor blocked"
+		}
+		o.Early = returned(0) || returned(1)
+		if o.Early {
+			lg.mu.Lock()
+			o.Trace = append([]label(nil), lg.evs...)
+			lg.mu.Unlock()
+			o.Samples = []int64{samples[0].Load(), samples[1].Load()}
+			savePartial(o)
+		}
+		close(h.gate)
+		left := map[int]bool{0: true, 1: true}
+		for len(left) > 0 {
+			p := -1
+			if _, ok := waitUntil(nil, func() bool {
+				for q := range left {
+					if returned(q) {
+						p = q
+						return true
+					}
+				}
+				return false
+			}); !ok {
+				o.Note += " a Pause never returned"
+				break
+			}
+			if _, ok := waitUntil(done, settled); !ok {
+				o.Note += " engine did not settle after Pause"
+			}
+			close(contGo[p])
+			if !waitClosed(contDone[p]) {
+				o.Note += " Continue never returned"
+				break
+			}
+			delete(left, p)
+		}
+		o.Samples = []int64{samples[0].Load(), samples[1].Load()}
+		if o.Samples[0] > 0 || o.Samples[1] > 0 {
+			o.Early = true
+		}
 	case "idle":
 		eng.Pause()
 		lg.add("P", 0)
@@ -419,7 +530,7 @@ func execute(in input) obs {
 			eng.Continue()
 		}
 	}
-	if in.Scn != "idle" && in.Scn != "inflight" && in.Scn != "stress" {
+	if in.Scn != "idle" && in.Scn != "inflight" && in.Scn != "stress" && in.Scn != "twopause" {
 		runIt()
 	}
 	o.Done = waitClosed(done)
@@ -445,7 +556,7 @@ func run(raw json.RawMessage) (hx.Case, error) {
 		return hx.Case{}, err
 	}
 	var o obs
-	if in.Scn == "live" {
+	if in.Scn == "live" || in.Scn == "twopause" {
 		o = liveChild(raw)
 	} else {
 		o = execute(in)
@@ -479,6 +590,8 @@ func run(raw json.RawMessage) (hx.Case, error) {
 		scn = "ScnIdle"
 	case "live":
 		scn = hx.App("ScnLive", hx.N(uint64(in.Cycles)))
+	case "twopause":
+		scn = hx.App("ScnTwoPause", hx.N(in.K))
 	default:
 		scn = "ScnStress"
 	}
@@ -570,6 +683,19 @@ func gen(r *hx.Rand, tier string) []json.RawMessage {
 		add(input{Par: par, Init: []Ev{{1, 5, true}, {2, 5, false}, {3, 5, false}},
 			Prog: map[string][]Ev{"2": {{4, 5, false}, {5, 5, true}}, "4": {{6, 7, false}}}, Scn: "inflight", K: 4})
 	}
+	// two pausers whose Pause calls overlap while a handler is executing (parallel engine; subprocess)
+	add(input{Par: true, Init: two, Prog: map[string][]Ev{}, Scn: "twopause", K: 1})
+	add(input{Par: true, Init: []Ev{{1, 5, true}, {2, 5, false}, {3, 5, false}},
+		Prog: map[string][]Ev{"2": {{4, 5, false}, {5, 5, true}}, "4": {{6, 7, false}}}, Scn: "twopause", K: 4})
+	nTwo := 2
+	if tier == "thorough" {
+		nTwo = 30
+	}
+	for i := 0; i < nTwo; i++ {
+		n := r.Range(2, 14)
+		init, prog := genProgram(r, n)
+		add(input{Par: true, Init: init, Prog: prog, Scn: "twopause", K: uint64(r.Range(1, n))})
+	}
 	for i := 0; i < nDet; i++ {
 		n := r.Range(2, 14)
 		init, prog := genProgram(r, n)
@@ -658,7 +784,7 @@ func init() {
 		Rule: "replayed schedules on the real SerialEngine and ParallelEngine: (inflight) a handler signals 'entered' and blocks on a " +
 			"channel, another goroutine calls Pause, the harness records whether Pause returned under the blocked handler, releases it, " +
 			"waits (goroutine-stack poll, no sleeps) until the engine is parked / blocked on the pause lock / finished, then Continue; " +
-			"(idle) Pause before Run; (live, in a subprocess) thousands of back-to-back Pause / tiny random spin / Continue cycles on a self-rescheduling event chain with a watchdog that requires the handled-event counter to advance after every Continue (GOMAXPROCS >= 2); (stress) a free-running controller issues 3..25 Pause/Continue pairs with random busy-loop gaps " +
+			"(twopause, parallel engine, in a subprocess) the same with TWO goroutines calling Pause, each sampling the handlers-running counter right after its Pause returns, then continuing in turn; (idle) Pause before Run; (live, in a subprocess) thousands of back-to-back Pause / tiny random spin / Continue cycles on a self-rescheduling event chain with a watchdog that requires the handled-event counter to advance after every Continue (GOMAXPROCS >= 2); (stress) a free-running controller issues 3..25 Pause/Continue pairs with random busy-loop gaps " +
 			"while 40..160 events with random busy handlers run. Programs are random forests of 2..14 (deterministic scenarios) events, " +
 			"children at the same instant or later, primary or secondary. Non-trivial: >=2 events and some Pause returned before the " +
 			"last handler ended. Distinct = distinct input hash.",
